@@ -1,7 +1,27 @@
 #!/bin/bash
-# development aid: evaluate all seeded changes (must be reported) and all benign refactorings (must be silent)
+# development aid: evaluate all seeded changes (must be reported under their property) and all benign refactorings (must be silent),
+# 6 in parallel (each slot has its own scratch target directory).  Usage: sa/evalall.sh [seeded|refactors]
 cd "$(dirname "$0")/.."
-miss=0; fa=0
-for d in seeded/*/; do id=$(basename $d); prop=${id%-*}; r=$(python3 sa/evalseed.py $d/patch.diff 2>&1 | tr '\n' ' ' | tr -s ' '); if ! echo "$r" | grep -q "\"$prop\""; then echo "SEED-MISSED $id: $r" | cut -c1-300; miss=$((miss+1)); fi; done
-for d in refactors/*/; do id=$(basename $d); r=$(python3 sa/evalseed.py $d/patch.diff 2>&1 | tr '\n' ' ' | tr -s ' '); if [ "$r" != "{} " ]; then echo "REF-ALARM $id: $r" | cut -c1-${W:-420}; fa=$((fa+1)); fi; done
-echo "seeds missed: $miss / $(ls seeded | wc -l); refactor false alarms: $fa / $(ls refactors | wc -l)"
+python3 sa/evalseed.py seeded/C01-1/patch.diff C01 >/dev/null 2>&1   # warm the baseline cache
+one() {
+  d=$1; id=$(basename $d)
+  # take a free slot (its scratch target directory and fact directory are exclusively ours while we hold the lock)
+  while :; do
+    for slot in 0 1 2 3 4 5; do
+      exec 9>.work/evalslot.$slot
+      if flock -n 9; then break 2; fi
+    done
+    sleep 0.2
+  done
+  r=$(EVAL_SLOT=$slot python3 sa/evalseed.py $d/patch.diff 2>&1 | tr '\n' ' ' | tr -s ' ')
+  flock -u 9
+  case $d in
+    seeded/*) prop=${id%-*}; echo "$r" | grep -q "\"$prop\"" || echo "SEED-MISSED $id: $r" | cut -c1-300;;
+    *) [ "$r" = "{} " ] || echo "REF-ALARM $id: $r" | cut -c1-${W:-420};;
+  esac
+}
+export -f one
+for k in ${1:-seeded refactors}; do ls -d $k/C*/; done | sed 's:/$::' | awk '{print $0, NR%6}' | xargs -P 6 -L 1 bash -c 'one $0 $1' | sort > /tmp/evalall.$$
+cat /tmp/evalall.$$
+echo "seeds missed: $(grep -c '^SEED-MISSED' /tmp/evalall.$$) / $(ls seeded | grep -c '^C'); refactor false alarms: $(grep -c '^REF-ALARM' /tmp/evalall.$$) / $(ls refactors | grep -c '^C')"
+rm -f /tmp/evalall.$$
